@@ -29,6 +29,7 @@ import (
 	"errors"
 	"fmt"
 	"io"
+	"runtime"
 	"strings"
 	"sync"
 	"time"
@@ -119,11 +120,11 @@ func (p *peer) Close() error {
 	return nil
 }
 
-// quiet: nothing in flight towards the client, its reader is parked, and nothing happened for d
-func (p *peer) quiet(d time.Duration) bool {
+// quiet: nothing in flight towards the client and its reader is parked; also returns the time of the last activity
+func (p *peer) quiet() (bool, time.Time) {
 	p.mu.Lock()
 	defer p.mu.Unlock()
-	return len(p.out) == 0 && p.parked > 0 && time.Since(p.last) > d
+	return len(p.out) == 0 && p.parked > 0, p.last
 }
 
 // ---------------------------------------------------------------- configuration
@@ -335,6 +336,11 @@ func Run(cfg Cfg, replies [][]byte) (res Result) {
 	defer tick.Stop()
 	var o outcome
 	cancelled := false
+	// "for a while" is counted in monitor ticks that saw the same quiet state, not in wall-clock time: if the whole
+	// process is descheduled on a loaded machine the count does not advance, and between two ticks the Login goroutine
+	// gets its turn
+	quietTicks := 0
+	var lastSeen time.Time
 loop:
 	for {
 		select {
@@ -347,12 +353,18 @@ loop:
 			p.Close()
 			return res
 		case <-tick.C:
-			if !cancelled && p.quiet(400*time.Millisecond) {
-				np, ne := ch.VerifQueueLens()
-				if np == 0 && ne == 0 && conn.VerifErrChLen() == 0 {
-					cancel()
-					cancelled = true
-				}
+			q, last := p.quiet()
+			np, ne := ch.VerifQueueLens()
+			if q && np == 0 && ne == 0 && conn.VerifErrChLen() == 0 && last.Equal(lastSeen) {
+				quietTicks++
+			} else {
+				quietTicks = 0
+				lastSeen = last
+			}
+			runtime.Gosched()
+			if !cancelled && quietTicks >= 100 {
+				cancel()
+				cancelled = true
 			}
 		}
 	}
